@@ -349,6 +349,7 @@ type ServerOpts struct {
 	SKESignD         *big.Int // key that signs the ServerKeyExchange (default ID.SignD)
 	SKEInputOverride func(cr, sr, enc []byte) []byte
 	Echo             []byte // application data to send after the handshake
+	SigMangle        func(der []byte) []byte // rewrites the DER signature of ServerKeyExchange (nil = identity)
 }
 
 // RunServer plays the server side. Returns nil when the handshake completed by the reference's standards.
@@ -404,6 +405,9 @@ func (p *Peer) RunServer(o ServerOpts) error {
 	var ske []byte
 	if signD != nil {
 		sig := sm2SigDER(signD, rsm2.Std.BaseMul(signD), in, p.sm2Nonce())
+		if o.SigMangle != nil {
+			sig = o.SigMangle(sig)
+		}
 		ske = hsMsg(HSServerKeyEx, append([]byte{byte(len(sig) >> 8), byte(len(sig))}, sig...))
 	} else {
 		ske = hsMsg(HSServerKeyEx, []byte{0, 0})
@@ -513,6 +517,7 @@ type ClientOpts struct {
 	SessionTicket   []byte
 	SessionID       []byte
 	ResumeMaster    []byte // expected master when the server resumes
+	SigMangle       func(der []byte) []byte // rewrites the DER signature of CertificateVerify (nil = identity)
 }
 
 func (p *Peer) ClientHelloBytes(o ClientOpts) []byte {
@@ -675,6 +680,9 @@ func (p *Peer) RunClient(o ClientOpts) error {
 		}
 		if d != nil {
 			sig := sm2SigDER(d, rsm2.Std.BaseMul(d), rsm3.Sum(p.transcript), p.sm2Nonce())
+			if o.SigMangle != nil {
+				sig = o.SigMangle(sig)
+			}
 			if err := p.send("CertificateVerify", Out{RecType: RecHS, Data: hsMsg(HSCertVerify, append([]byte{byte(len(sig) >> 8), byte(len(sig))}, sig...))}); err != nil {
 				return err
 			}
